@@ -1080,9 +1080,11 @@ func (c *Conn) handleBdat(arg string) {
 
 	c.bytesReceived += int64(size)
 
-	if last {
-		c.lineLimitReader.LineLimit = c.server.MaxLineLength
+	// The chunk has been read: whatever follows it, another BDAT included,
+	// is a command line again and subject to the line length limit.
+	c.lineLimitReader.LineLimit = c.server.MaxLineLength
 
+	if last {
 		c.bdatPipe.Close()
 
 		err := <-c.dataResult
